@@ -23,7 +23,7 @@ MANIFEST = {
 LEVEL = 'exploration'
 RULE = ('case = (1|3 nodes, batch mode, commandsQueueSize in {0,1,5,100000}, N in 1..8 threads, per thread a list of (mode, target node, micro-sleep)). '
         'non-trivial = calls of >=2 different threads were in the command queue of one node at the same moment (measured on the instrumented queue); distinct = distinct case digests')
-ASSUMPTIONS = ['thread interleavings are sampled by the OS scheduler, not enumerated', 'sync calls use a 30 s timeout; a timeout is counted, not judged']
+ASSUMPTIONS = ['thread interleavings are sampled by the OS scheduler, not enumerated', 'sync calls use a 30 s timeout or a generated short one (0.5-20 ms) so that calls that time out are followed by further calls of the same thread; a timeout is counted, not judged']
 
 _NET = {}
 
@@ -85,7 +85,8 @@ def make_classes():
 
 
 def strategy(tier):
-    call = st.tuples(st.sampled_from(['async', 'callback', 'sync', 'rsync']), st.integers(0, 2), st.sampled_from([0, 0, 0, 1, 5, 50])).map(list)
+    call = st.tuples(st.sampled_from(['async', 'callback', 'sync', 'sync', 'rsync', 'rsync']), st.integers(0, 2), st.sampled_from([0, 0, 0, 1, 5, 50]),
+                     st.sampled_from([30, 30, 30, 0.0005, 0.003, 0.02])).map(list)
     return st.fixed_dictionaries({
         'n': st.sampled_from([1, 3, 3]), 'batch': st.booleans(), 'queue': st.sampled_from([0, 1, 5, 100000, 100000]),
         'threads': st.lists(st.lists(call, min_size=1, max_size=20 if tier == 'quick' else 50), min_size=1, max_size=8),
@@ -137,7 +138,7 @@ def run_case(case):
         cid_counter = [0]
 
         def worker(tid, plan):
-            for mode, target, usleep in plan:
+            for mode, target, usleep, tmo in plan:
                 with lock:
                     cid_counter[0] += 1
                     cid = cid_counter[0]
@@ -151,9 +152,9 @@ def run_case(case):
                     elif mode == 'callback':
                         obj.op(cid, callback=lambda r, e, rec=rec: rec['cbs'].append((r, e)))
                     elif mode == 'sync':
-                        rec['ret'] = obj.op(cid, sync=True, timeout=30)
+                        rec['ret'] = obj.op(cid, sync=True, timeout=tmo)
                     else:
-                        rec['ret'] = obj.op_sync(cid, timeout=30)
+                        rec['ret'] = obj.op_sync(cid, timeout=tmo)
                 except SyncObjException as e:
                     rec['exc'] = e.errorCode
                 except Exception as e:
